@@ -41,6 +41,8 @@ pub fn menu() -> Vec<RefRR> {
         // conversion_utils::port_to_srv_record produces) with an address record below its owner
         RefRR { name: RefName::txt("_my.local"), class: 1, cache_flush: false, ttl: 120, rdata: typed(33, vec![Val::U16(0), Val::U16(0), Val::U16(7070), Val::Name(RefName::txt("bar.local"))]) },
         RefRR { name: RefName::txt("_mysrv.local"), class: 1, cache_flush: false, ttl: 120, rdata: typed(33, vec![Val::U16(0), Val::U16(0), Val::U16(6060), Val::Name(RefName::txt("_mysrv.local"))]) },
+        // same owner and RDATA as record 0, different class
+        a("foo.bar.local", 3, 0x0a000001),
     ]
 }
 
@@ -393,7 +395,7 @@ pub fn check_state(w: &World, hist: &[Op], singles: &[Q], pairs: &[Q], t: &mut T
 
 pub fn run(ctx: &Ctx) {
     let depth = ctx.tier.pick(4usize, 5usize);
-    ctx.set_rule("explicit-state BFS over histories of add-authoritative / add-cached / remove / clear on a 14-record menu (owners foo.bar.local, foobar.local, bar.local, local, _my.local, _mysrv.local, a._mysrv.local; classes IN/CH; A, AAAA, SRV, TXT, PTR) to the stated depth, each transition executed on the real ResourceRecordManager; states deduplicated by (record -> kind map, owners touched since the last clear); in every state every single question over 8 owners x 6 types x 3 classes x unicast bit and every ordered pair from a 24-question menu goes through the real build_reply and is judged by the reply model. non-trivial = state holds at least one record");
+    ctx.set_rule("explicit-state BFS over histories of add-authoritative / add-cached / remove / clear on a 15-record menu (owners foo.bar.local, foobar.local, bar.local, local, _my.local, _mysrv.local, a._mysrv.local; classes IN/CH; A, AAAA, SRV, TXT, PTR) to the stated depth, each transition executed on the real ResourceRecordManager; states deduplicated by (record -> kind map, owners touched since the last clear); in every state every single question over 8 owners x 6 types x 3 classes x unicast bit and every ordered pair from a 24-question menu goes through the real build_reply and is judged by the reply model. non-trivial = state holds at least one record");
     ctx.assume("state abstraction: the real trie's shape is a function of the set of keys inserted since the last clear, which the fingerprint includes; validated by the insertion-order differential (every permutation of every <=3-record store gives the same verdicts)");
     ctx.assume("answers are compared as sets; optional subdomain answers are allowed, answers at the question's own name are required");
     let w = world();
@@ -432,8 +434,8 @@ pub fn run(ctx: &Ctx) {
             }
         }
     });
-    ctx.space(&format!("transition conformance: {} states x 43 operations, real store read back through get_domain_resources and compared with the reference store", states.len()), states.len() as u64 * 43, "complete");
-    ctx.space(&format!("BFS to depth {} over 43 operations: {} distinct states x ({} single + {} pair queries)", depth, states.len(), singles.len(), pairs.len() * pairs.len()), states.len() as u64, "complete to the stated depth");
+    ctx.space(&format!("transition conformance: {} states x 46 operations, real store read back through get_domain_resources and compared with the reference store", states.len()), states.len() as u64 * 46, "complete");
+    ctx.space(&format!("BFS to depth {} over 46 operations: {} distinct states x ({} single + {} pair queries)", depth, states.len(), singles.len(), pairs.len() * pairs.len()), states.len() as u64, "complete to the stated depth");
     ctx.sample(json!({"kind": "state", "history": states[states.len() / 2].1}));
     ctx.sample(json!({"kind": "query", "history": [Op::AddAuth(0), Op::AddAuth(4)], "questions": [Q { owner: 5, qtype: 33, qclass: 1, unicast: true }]}));
     // insertion-order differential: every permutation of every store of <= 3 authoritative/cached records
